@@ -206,7 +206,7 @@ func (n *Tree[V]) addNode(path string, wildcardKeys []string, inStaticToken bool
 }
 
 //nolint:cyclop,funlen
-func (n *Tree[V]) delNode(path string, matcher ValueMatcher[V]) bool {
+func (n *Tree[V]) delNode(path string, matcher ValueMatcher[V], inStaticToken bool) bool {
 	pathLen := len(path)
 	if pathLen == 0 {
 		if len(n.values) == 0 {
@@ -231,26 +231,30 @@ func (n *Tree[V]) delNode(path string, matcher ValueMatcher[V]) bool {
 
 	token := path[0]
 
-	switch token {
-	case ':':
-		if n.wildcardChild == nil {
-			return false
-		}
+	// As in addNode, ':', '*' and escapes are special only at the start of a path
+	// segment, not where a prefix split happened to put a node boundary.
+	if !inStaticToken {
+		switch token {
+		case ':':
+			if n.wildcardChild == nil {
+				return false
+			}
 
-		child = n.wildcardChild
-		nextSeparator := n.nextSeparator(path)
-		nextPath = path[nextSeparator:]
-	case '*':
-		if n.catchAllChild == nil {
-			return false
-		}
+			child = n.wildcardChild
+			nextSeparator := n.nextSeparator(path)
+			nextPath = path[nextSeparator:]
+		case '*':
+			if n.catchAllChild == nil {
+				return false
+			}
 
-		child = n.catchAllChild
-		nextPath = ""
+			child = n.catchAllChild
+			nextPath = ""
+		}
 	}
 
 	if child != nil {
-		if child.delNode(nextPath, matcher) {
+		if child.delNode(nextPath, matcher, false) {
 			if len(child.values) == 0 {
 				n.deleteChild(child, token)
 			}
@@ -261,7 +265,8 @@ func (n *Tree[V]) delNode(path string, matcher ValueMatcher[V]) bool {
 		return false
 	}
 
-	if len(path) >= 2 &&
+	if !inStaticToken &&
+		len(path) >= 2 &&
 		path[0] == '\\' &&
 		(path[1] == '*' || path[1] == ':' || path[1] == '\\') {
 		// The token starts with a character escaped by a backslash. Drop the backslash.
@@ -275,7 +280,7 @@ func (n *Tree[V]) delNode(path string, matcher ValueMatcher[V]) bool {
 			childPathLen := len(child.path)
 
 			if pathLen >= childPathLen && child.path == path[:childPathLen] &&
-				child.delNode(path[childPathLen:], matcher) {
+				child.delNode(path[childPathLen:], matcher, token != '/') {
 				if len(child.values) == 0 {
 					n.deleteChild(child, token)
 				}
@@ -480,7 +485,7 @@ func (n *Tree[V]) Add(path string, value V, opts ...AddOption[V]) error {
 }
 
 func (n *Tree[V]) Delete(path string, matcher ValueMatcher[V]) error {
-	if !n.delNode(path, matcher) {
+	if !n.delNode(path, matcher, false) {
 		return fmt.Errorf("%w: %s", ErrFailedToDelete, path)
 	}
 
